@@ -813,6 +813,11 @@ func (d decoder) unmarshalTimestamp(m protoreflect.Message) error {
 	}
 
 	s := tok.ParsedString()
+	// time.Parse is more lenient than RFC 3339 (for example it accepts a comma
+	// as the fraction separator, a one-digit hour, or the offset +24:00).
+	if !isRFC3339(s) {
+		return d.newError(tok.Pos(), "invalid %v value %v", genid.Timestamp_message_fullname, tok.RawString())
+	}
 	t, err := time.Parse(time.RFC3339Nano, s)
 	if err != nil {
 		return d.newError(tok.Pos(), "invalid %v value %v", genid.Timestamp_message_fullname, tok.RawString())
@@ -836,6 +841,46 @@ func (d decoder) unmarshalTimestamp(m protoreflect.Message) error {
 	m.Set(fdSeconds, protoreflect.ValueOfInt64(secs))
 	m.Set(fdNanos, protoreflect.ValueOfInt32(int32(t.Nanosecond())))
 	return nil
+}
+
+// isRFC3339 reports whether s has the shape of an RFC 3339 date-time with up
+// to 9 fractional digits: YYYY-MM-DDThh:mm:ss[.f](Z|(+|-)hh:mm), with the
+// offset within 23:59. The ranges of the date and time fields are left to
+// time.Parse.
+func isRFC3339(s string) bool {
+	digits := func(s string) bool {
+		for i := 0; i < len(s); i++ {
+			if s[i] < '0' || '9' < s[i] {
+				return false
+			}
+		}
+		return len(s) > 0
+	}
+	if len(s) < len("2006-01-02T15:04:05Z") {
+		return false
+	}
+	if !digits(s[0:4]) || s[4] != '-' || !digits(s[5:7]) || s[7] != '-' || !digits(s[8:10]) || s[10] != 'T' ||
+		!digits(s[11:13]) || s[13] != ':' || !digits(s[14:16]) || s[16] != ':' || !digits(s[17:19]) {
+		return false
+	}
+	s = s[19:]
+	if s[0] == '.' {
+		n := 1
+		for n < len(s) && '0' <= s[n] && s[n] <= '9' {
+			n++
+		}
+		if n == 1 || n > len(".999999999") {
+			return false
+		}
+		s = s[n:]
+	}
+	switch {
+	case s == "Z":
+		return true
+	case len(s) == len("+00:00") && (s[0] == '+' || s[0] == '-') && digits(s[1:3]) && s[3] == ':' && digits(s[4:6]):
+		return s[1:3] <= "23" && s[4:6] <= "59"
+	}
+	return false
 }
 
 // The JSON representation for a FieldMask is a JSON string where paths are
